@@ -178,7 +178,7 @@ func genValue(t *rapid.T) float64 {
 	case 0:
 		return float64(rapid.IntRange(-5, 5).Draw(t, "small"))
 	case 1:
-		return rapid.SampledFrom([]float64{0, math.Copysign(0, -1), 1, -1, 0.1, -0.1, 1e-310, -1e-310, math.MaxFloat64 / 4, -math.MaxFloat64 / 4, math.SmallestNonzeroFloat64, 0.30000000000000004, 123456789.12345679}).Draw(t, "special")
+		return rapid.SampledFrom([]float64{0, math.Copysign(0, -1), 1, -1, 0.1, -0.1, 1e-310, -1e-310, math.MaxFloat64 / 4, -math.MaxFloat64 / 4, math.SmallestNonzeroFloat64, 0.30000000000000004, 123456789.12345679, math.Inf(1), math.Inf(-1), math.MaxFloat64, -math.MaxFloat64, 9007199254740993, -1e308}).Draw(t, "special")
 	case 2:
 		base := rapid.Float64Range(-1e6, 1e6).Draw(t, "base")
 		return math.Nextafter(base, math.Inf(1))
